@@ -215,10 +215,16 @@ def typePriority (name : Str) : Nat :=
   | some (_, p) => p
   | none => 0
 
+/-- the sort key of `sort_types`, `(__PYTHON_TYPES_SORTED__.get(tp, 0), tp is object)`,
+as one number (the pair order is the order of `2 * priority + flag`): among the
+types without table entry `object`, the catch-all, comes last -/
+def typeKey (name : Str) : Nat :=
+  2 * typePriority name + (if name = ['o', 'b', 'j', 'e', 'c', 't'] then 1 else 0)
+
 /-- `ConverterFactory.sort_types(types)` on class names (`sorted` is stable) -/
 def sortTypes (names : List Str) : List Str :=
   if names.length < 2 then names
-  else names.mergeSort (fun a b => typePriority a ≤ typePriority b)
+  else names.mergeSort (fun a b => typeKey a ≤ typeKey b)
 
 /-- priority of a candidate type -/
 def Ty.prio (t : Ty) : Nat := typePriority t.name
